@@ -228,3 +228,135 @@ pub fn term_text(t: RegLan) -> String {
         s
     }
 }
+
+// ------------------------------------------------------------------ sessions shared by the regex monitors
+
+pub struct Sess<'a> {
+    pub prog: &'a Program,
+    pub m: ReManager,
+    pub run: Run,
+    pub ctx: ReCtx,
+    pub seed: u64,
+    pub thorough: bool,
+    pub rng: Rng,
+}
+
+pub const KIND_MGR: &str = "reprog-mgr";
+
+impl<'a> Sess<'a> {
+    /// fresh manager, optional history noise, then the program
+    pub fn start(prog: &'a Program, seed: u64, thorough: bool, budget: usize, noise_n: usize, rep: &mut Report) -> Sess<'a> {
+        let mut rng = Rng::derive(seed, 0x5E55, prog.ops.len() as u64);
+        let mut m = ReManager::new();
+        if noise_n > 0 && rng.chance(1, 2) {
+            noise(&mut m, &mut rng, &[], noise_n, 300);
+        }
+        let (run, err) = run_mgr(&mut m, prog, usize::MAX);
+        match err {
+            Some(RunErr::Panic(k, msg)) => {
+                // attributed to C01 (constructor totality); other monitors just work with the prefix
+                rep.inc("programs_cut_by_constructor_panic");
+                let _ = (k, msg);
+            }
+            Some(RunErr::Overflow(_)) => rep.inc("programs_cut_by_documented_overflow_panic"),
+            None => {}
+        }
+        let ctx = ReCtx::new(&prog.all_points(), budget);
+        Sess { prog, m, run, ctx, seed, thorough, rng }
+    }
+
+    pub fn case(&self, k: usize) -> String {
+        self.prog.slice(k).to_text()
+    }
+
+    pub fn viol(&self, rep: &mut Report, rule: &str, sig: &str, detail: String, k: usize) {
+        rep.violation(rule, sig, detail, KIND_MGR, &self.case(k), self.seed);
+    }
+
+    /// probe characters for term t: every end point of its derivative classes, the neighbours just outside,
+    /// an interior point, 0 and MAXC, plus both ends of every atom of the reference alphabet
+    pub fn probe_chars(&mut self, t: RegLan) -> Vec<u32> {
+        let mut v = vec![0, MAXC];
+        for cs in t.char_ranges() {
+            let lo = cs.pick();
+            let hi = lo + (cs.size() - 1);
+            v.push(lo);
+            v.push(hi);
+            v.push(lo + (hi - lo) / 2);
+            if lo > 0 {
+                v.push(lo - 1);
+            }
+            if hi < MAXC {
+                v.push(hi + 1);
+            }
+        }
+        let a = self.ctx.atoms();
+        for k in 0..a.n() {
+            v.push(a.lo[k]);
+            v.push(a.hi(k));
+        }
+        v.sort_unstable();
+        v.dedup();
+        v
+    }
+
+    /// make the reference alphabet fine enough for the classes of t
+    pub fn align_to(&mut self, t: RegLan) {
+        let mut pts = Vec::new();
+        for cs in t.char_ranges() {
+            let lo = cs.pick();
+            pts.push(lo);
+            pts.push(lo + (cs.size() - 1));
+        }
+        self.ctx.eng.ensure_points(&pts);
+    }
+}
+
+pub fn ranges_of(t: RegLan) -> Vec<(u32, u32)> {
+    t.char_ranges().map(|cs| (cs.pick(), cs.pick() + (cs.size() - 1))).collect()
+}
+
+/// the class of character c according to the interval list (by definition, linear scan)
+pub fn class_by_scan(ranges: &[(u32, u32)], c: u32) -> Option<usize> {
+    ranges.iter().position(|&(a, b)| a <= c && c <= b)
+}
+
+pub const STD_WEIGHTS: [(Profile, u32); 5] = [(Profile::Boundary, 25), (Profile::Loops, 25), (Profile::Boolean, 20), (Profile::Patterns, 15), (Profile::Mixed, 15)];
+
+/// generic driver: generate programs and hand them to `f` under a panic guard
+pub fn for_programs(
+    p: &Params,
+    rep: &mut Report,
+    stream: u64,
+    nprog: u64,
+    weights: &[(Profile, u32)],
+    steps: (usize, usize),
+    mut f: impl FnMut(&Program, u64, &mut Report),
+) {
+    let mut rng = p.rng(stream);
+    for _ in 0..nprog {
+        let prof = Profile::pick(&mut rng, weights);
+        let n = steps.0 + rng.usize(steps.1 - steps.0 + 1);
+        let prog = gen_program(&mut rng, prof, n);
+        let seed = rng.next();
+        rep.hist("profiles", prof.name());
+        rep.inc("programs");
+        rep.sample(|| format!("[{}] {}", prof.name(), prog.to_text().replace('\n', "; ")));
+        let r = guard(|| f(&prog, seed, rep));
+        if let Err(msg) = r {
+            if panic_in_harness(&msg) {
+                rep.harness_error(format!("monitor panicked: {}", msg));
+            } else {
+                rep.violation("panic", "panic-unguarded", format!("crate panicked outside a guarded call: {}", msg), KIND_MGR, &prog.to_text(), seed);
+            }
+        }
+    }
+}
+
+pub fn replay_program(text: &str, rep: &mut Report, f: impl FnOnce(&Program, &mut Report)) -> bool {
+    match Program::from_text(text) {
+        Ok(p) => f(&p, rep),
+        Err(e) => rep.harness_error(format!("cannot parse case: {}", e)),
+    }
+    true
+}
